@@ -4,9 +4,13 @@
 //!   vh run                                   → reads op lines on stdin, executes each against
 //!                                              the real implementation, one output line per op
 mod c15;
+mod exec;
+mod ops;
 mod rdf;
 mod tx;
 mod util;
+mod val;
+mod vals;
 mod wal;
 
 use std::io::{BufRead, Write};
@@ -36,6 +40,9 @@ fn main() {
                 "c15" => c15::generate(seed, cases, &mut out),
                 "tx" => tx::generate(seed, cases, &mut out),
                 "rdf" => rdf::generate(seed, cases, &mut out),
+                "ops" => ops::generate(seed, cases, &mut out),
+                "val" => val::generate(seed, cases, &mut out),
+                "exec" => exec::generate(seed, cases, &mut out),
                 "wal" => wal::generate(seed, cases, args.iter().any(|a| a == "--thorough"), &mut out),
                 _ => {
                     eprintln!("unknown stream {stream}");
@@ -70,6 +77,9 @@ fn main() {
                     Some("tx") => tx::run(&mut txst, &toks[1..]),
                     Some("rdf") => rdf::run(&mut rdfst, &toks[1..]),
                     Some("wal") => wal::run(&toks[1..]),
+                    Some("ops") => ops::run(&toks[1..]),
+                    Some("val") => val::run(&toks[1..]),
+                    Some("exec") => exec::run(&toks[1..]),
                     _ => "bad-op".to_string(),
                 };
                 writeln!(w, "{}", res).unwrap();
